@@ -1,3 +1,4 @@
+#![allow(dead_code)]
 //! rrtk-sim: deterministic simulation with fault injection for rrtk.
 //!
 //!   rrtk-sim batch  --prop C05 --tier quick --seed 1 [--runs N] [--workers N]
